@@ -18,7 +18,4 @@ s.ens("uid'", ("C04",), _uuc_new)
 s.ens_all("only-counter", ("C01", "C02", "C03", "C04", "C05"), lambda c, A, R: z3.And(
     same_tables(c, A.snap0["H"], R.snap["H"]), A.snap0["H"].neth == R.snap["H"].neth, A.snap0["H"].netv == R.snap["H"].netv))
 s.ens_all("counter-monotone", ("C04",), lambda c, A, R: R.snap["H"].uid >= A.snap0["H"].uid)
-# float(idx) raises for ids that are neither numbers nor str/tuple (e.g. frozenset, None)
-s.exc("TypeError", "non-numeric id", ("C05",), lambda c, A, R: z3.And(
-    z3.Not(c.floatable(A.idx.term)), z3.Not(c.is_str(A.idx.term)), z3.Not(c.is_tuple(A.idx.term))))
 s.modifies = ["H"]
